@@ -16,6 +16,7 @@ func registerTests() {
 		evid.Spec{Name: "TestPropSingleStage", Kind: "rapid", Quick: 24000, Thorough: 200000, QuickShards: 16, ThoroughShards: 16},
 		evid.Spec{Name: "TestPropPipeline", Kind: "rapid", Quick: 24000, Thorough: 200000, QuickShards: 16, ThoroughShards: 16},
 		evid.Spec{Name: "TestPropCommands", Kind: "rapid", Quick: 480, Thorough: 12000, QuickShards: 16, ThoroughShards: 16},
+		evid.Spec{Name: "TestPropDirectoryInputs", Kind: "rapid", Quick: 160, Thorough: 4000, QuickShards: 8, ThoroughShards: 16},
 		evid.Spec{Name: "TestPropFiles", Kind: "rapid", Quick: 6000, Thorough: 60000, QuickShards: 8, ThoroughShards: 16},
 	)
 	evid.Note("rule", "a case = sources (batch sizes >= 0 incl. empty batches/streams, arrival permutation of the batch numbers, 1..4 producer goroutines) + a pipeline of real obiiter combinators (MakeIWorker/MakeISliceWorker keep/drop/duplicate, FilterOn, FilterAnd, FilterEmpty, Rebatch, SortBatches, LimitMemory, Pool, Concat, IFragments, CompleteFileIterator, ReadSequencesBatchFromFiles) with generated worker counts and sizes, ended by a drain, DivideOn, Distribute or PairTo(+PairedWith); optional push jitter and GOMAXPROCS 1/2. Oracle: a sequential model on lists of record ids: output batch numbers are exactly 0..m-1, the concatenation by batch number equals the model sequence (multiset after Pool / several file readers), every record of DivideOn/Distribute is in exactly one output, mates keep their rank; the drain terminates. Non-trivial = arrival order differs from the identity and (an empty batch, or >= 2 workers, or >= 2 stages). Distinct = hash of the whole case. Commands: obiconvert / obigrep -l / obiannotate --length over 1..3 generated FASTA/FASTQ files (some spanning several 1 MiB read chunks) with --max-cpu, --batch-size and push jitter: stdout ids = selected ids in input order, exit 0, terminates (non-trivial = several batches and more than one CPU). Exhaustive part: SortBatches/Rebatch/FilterEmpty on every arrival permutation x every empty-subset for n <= 5 (quick) / 6 (thorough) batches.")
